@@ -14,7 +14,8 @@ Definition check (c : case) : verdict :=
       else match run_tape (cluster_update (1 # 2) None sl0 st0) tape with
            | RDone (Some (sl, st, n)) rest =>
                of_bool (match rest with nil => true | _ => false end
-                        && slots_eqb sl sl1 && bools_eqb st st1 && Nat.eqb n ncl)
+                        && slots_eqb sl sl1 && bools_eqb st st1 && Nat.eqb n ncl
+                        && valid_decomp st0 sl0)
            | RDone None _ => VFail
            | RIndet => VIndet
            | RBad _ => VFail
